@@ -45,6 +45,7 @@ def classify_intervals(
         """
     SELECT DISTINCT data_interval
     FROM grid_time
+    JOIN water_level USING (epoch)
     WHERE data_interval IS NOT NULL
     ORDER BY data_interval"""
     )
